@@ -86,6 +86,7 @@ class Ctx:
         self.stopped_early = False
         self.extra = {}
         self._tmpn = 0
+        self._auto_samples = []
 
     # ---- workload helpers -------------------------------------------------
     def pick(self, tier_values: dict):
@@ -113,6 +114,12 @@ class Ctx:
         self.evaluations += 1
         if nontrivial and desc is not None:
             self.digests.add(digest(desc))
+            if len(self._auto_samples) < 3:
+                # fallback samples (actual case descriptors) for modules that never call sample()
+                try:
+                    self._auto_samples.append(json.loads(json.dumps(desc, default=jdefault)))
+                except Exception:
+                    pass
 
     def count(self, name, n=1):
         self.counters[name] += n
@@ -156,7 +163,7 @@ class Ctx:
             "counters": dict(self.counters),
             "sets": {k: sorted(v) for k, v in self.sets.items()},
             "maxes": self.maxes,
-            "samples": self.samples,
+            "samples": self.samples or self._auto_samples,
             "violations": self.violations,
             "violation_counts": dict(self.violation_counts),
             "stopped_early": self.stopped_early,
